@@ -399,10 +399,11 @@ UNITS['U27k'] = dict(
 
 UNITS['U28k'] = dict(
     kind='kani', crate='kani/U28', timeout_s=900, mem_gb=8, jobs=3,
-    title='BOUNDED (2, 3, 4 group-by columns): batch_merging::combine, aggregation branch - the plan that merges the grouping keys of two partial results (slice) with real unify_types / null_to_val',
+    title='batch_merging::combine, aggregation branch - the plan that merges the grouping keys of two partial results (slice; BOUNDED: 2, 3, 4 group-by columns) with real unify_types / null_to_val; unify_types + least_upper_bound for every pair of types (complete)',
     harnesses=[dict(name='proofs::%s_group_by_columns' % w, bounded='%d group-by columns at fixed positions, any limit, unwind 7' % n, unwind=7, clause='partition(key0) -> subpartition(key1..n-2 in order) -> merge_deduplicate_partitioned(key n-1) -> merge_drop replay on keys 0..n-2; outputs in key order', fn='combine[slice: >= 2 group-by columns]')
                for (w, n) in [('two', 2), ('three', 3), ('four', 4)]]
-    + [dict(name='proofs::five_group_by_columns', thorough_only=True, bounded='5 group-by columns at fixed positions, any limit, unwind 8 (thorough tier)', unwind=8, clause='same chain for five keys', fn='combine[slice: >= 2 group-by columns]'),
+    + [dict(name='proofs::unify_types_gives_one_type', clause='for every pair of column types: unify_types returns two buffers of one common type (casts recorded); never a panic', fn='batch_merging::unify_types + EncodingType::least_upper_bound'),
+       dict(name='proofs::five_group_by_columns', thorough_only=True, bounded='5 group-by columns at fixed positions, any limit, unwind 8 (thorough tier)', unwind=8, clause='same chain for five keys', fn='combine[slice: >= 2 group-by columns]'),
        dict(name='proofs::vx_canary', expect_fail=True)],
     assumptions=['A-astbuilder: planner methods partition / subpartition / merge_deduplicate_partitioned / merge_drop / cast are recording stand-ins for the generated node constructors',
                  'the kernels behind the nodes are U10 (merge_deduplicate*, partition, subpartition are partly covered there) and U09m'],
